@@ -349,6 +349,9 @@ structure StepSpec (t t' : Tracker) : Prop where
   stable : ∀ s, Dec (t.status s) → s < t'.first ∨ (Dec (t'.status s) ∧ finalHash (t'.status s) = finalHash (t.status s))
   parents_stable : ∀ b p, t.parents b = some p → b.1 < t'.first ∨ t'.parents b = some p
 
+theorem StepSpec.refl {t : Tracker} (hi : Inv t) : StepSpec t t :=
+  ⟨hi, Nat.le_refl _, Nat.le_refl _, fun _ hd => Or.inr ⟨hd, rfl⟩, fun _ _ hp => Or.inr hp⟩
+
 /-- the state between the mutation and the final `prune()` of an operation -/
 structure MidSpec (t t1 : Tracker) : Prop where
   inv : Inv t1
@@ -458,7 +461,7 @@ theorem markFastFinalized_spec {t : Tracker} (hi : Inv t) {blk : Nat × Nat} {t'
     (h : markFastFinalized t blk = .ok t' ev) : StepSpec t t' := by
   simp only [markFastFinalized] at h
   split at h
-  · cases h
+  · cases h; exact StepSpec.refl hi
   rename_i hfirst
   have hfirst : t.first ≤ blk.1 := by omega
   split at h
@@ -500,7 +503,7 @@ theorem markNotarized_spec {t : Tracker} (hi : Inv t) {blk : Nat × Nat} {t' : T
     (h : markNotarized t blk = .ok t' ev) : StepSpec t t' := by
   simp only [markNotarized] at h
   split at h
-  · cases h
+  · cases h; exact StepSpec.refl hi
   rename_i hfirst
   have hfirst : t.first ≤ blk.1 := by omega
   split at h
@@ -532,7 +535,7 @@ theorem markFinalized_spec {t : Tracker} (hi : Inv t) {slot : Nat} {t' : Tracker
     (h : markFinalized t slot = .ok t' ev) : StepSpec t t' := by
   simp only [markFinalized] at h
   split at h
-  · cases h
+  · cases h; exact StepSpec.refl hi
   rename_i hfirst
   have hfirst : t.first ≤ slot := by omega
   split at h
@@ -672,7 +675,7 @@ theorem finalized_report_cause {t : Tracker} {op : Op} {t' : Tracker} {ev : Even
     left
     simp only [step, markFastFinalized] at h
     split at h
-    · cases h
+    · cases h; cases hb
     split at h
     · split at h
       · cases h; cases hb
@@ -690,7 +693,7 @@ theorem finalized_report_cause {t : Tracker} {op : Op} {t' : Tracker} {ev : Even
     right; left
     simp only [step, markNotarized] at h
     split at h
-    · cases h
+    · cases h; cases hb
     split at h
     · cases h; cases hb
     · split at h
@@ -711,7 +714,7 @@ theorem finalized_report_cause {t : Tracker} {op : Op} {t' : Tracker} {ev : Even
     right; right
     simp only [step, markFinalized] at h
     split at h
-    · cases h
+    · cases h; cases hb
     split at h
     · cases h; cases hb
     · cases h; cases hb
